@@ -33,7 +33,17 @@ MENUS = [
 CONV_MENUS = MENUS + [["listener1"], []]  # convention names may live on the late listener only, or nowhere
 
 
-def base_am(with_flag):
+def base_am(with_flag, expr=False):
+    am = _base_am(with_flag)
+    if expr:
+        # the (b, go) guard is a boolean expression over two names that live on the same providers
+        for t in am["transitions"]:
+            if t.get("cond") == ["ok1"]:
+                t["cond"] = ["ok1 and ok2"]
+    return am
+
+
+def _base_am(with_flag):
     return {
         "states": [{"id": "a", "initial": True}, {"id": "b"}, {"id": "c"}],
         "transitions": ([{"src": "a", "tgt": "a", "events": ["go"], "cond": ["flag"], "internal": True}] if with_flag else []) + [
@@ -57,6 +67,8 @@ def tasks(tier):
                 if quick and late_kind == "async-late" and g not in (0, 3):
                     continue
                 out.append({"kind": "names", "guard_menu": g, "act_menu": a, "late_kind": late_kind, "quick": quick, "equal": late_kind == "sync" and (g + a) % 2 == 1})
+    for g in ((3,) if quick else (3, 4, 6)):
+        out.append({"kind": "names", "guard_menu": g, "act_menu": 0, "late_kind": "sync", "quick": quick, "equal": False, "expr": True})
     for fm in range(4):
         for equal in (False, True):
             out.append({"kind": "attr", "guard_menu": 0, "act_menu": 0, "late_kind": "sync", "quick": quick, "equal": equal, "flag_menu": fm, "falsy": fm % 2 == 1})
@@ -71,11 +83,11 @@ BOUNDS = {
     "quick": "3-state ring driven by 3 consecutive `go` events; the guard name `ok1` and the inline action `act` provided by each of 7 (2 for act) provider sets "
     "over {machine, model, constructor listener, late listener}; `on_enter_state` and `after_go` provided by 3 sets (machine; model + both listeners; late listener only); the "
     "late listener attached before event 0, 1 or 2, once, twice in one call, or again before the next event; a second instance of the class with its own "
-    "listener must stay silent; guard values symbolic per provider; a guard given as a plain data attribute (None at attachment, re-assigned before each event) on model / listeners; a variant whose listeners all compare equal and are falsy (define __len__ returning 0); variant in which the late listener's methods are coroutine functions on an otherwise sync machine.",
+    "listener must stay silent; a listener added to a shallow copy must not reach a later deep copy of the original; the guard also written as the expression 'ok1 and ok2'; guard values symbolic per provider; a guard given as a plain data attribute (None at attachment, re-assigned before each event) on model / listeners; a variant whose listeners all compare equal and are falsy (define __len__ returning 0); variant in which the late listener's methods are coroutine functions on an otherwise sync machine.",
     "thorough": "all 7x7 guard/action provider sets.",
 }
 OUTSIDE = "callables and properties passed by reference (late listeners resolve names only, documented); more than one late listener"
-OBLIGATIONS = ["attribute-guard-blocked", "attribute-guard-passed", "late-listener-called", "guard-conjunction-blocked", "guard-on-late-listener", "reattached", "second-instance-silent", "model-provider"]
+OBLIGATIONS = ["shallow-copy-listener-isolated", "attribute-guard-blocked", "attribute-guard-passed", "late-listener-called", "guard-conjunction-blocked", "guard-on-late-listener", "reattached", "second-instance-silent", "model-provider"]
 ASSUMPTIONS = [
     "every provider of a name is called once per phase; the value of a guard name provided by several objects is the conjunction of their values (cond wants it truthy, unless wants it falsy); any evaluation order and short-circuit is accepted",
     "a late listener takes part from the first event after add_listener returns",
@@ -87,8 +99,11 @@ def run(ctx, params):
 
     quick = params["quick"]
     with_flag = params["kind"] == "attr"
-    am = base_am(with_flag)
+    expr = bool(params.get("expr"))
+    am = base_am(with_flag, expr)
     conv_pool = CONV_MENUS if not quick else [CONV_MENUS[i] for i in (0, 4, 7)]
+    if expr:
+        conv_pool = [CONV_MENUS[0]]
     enter_prov = conv_pool[ctx.choose(len(conv_pool), "enter_menu")] if not with_flag else []
     if with_flag:
         after_prov = []
@@ -101,10 +116,16 @@ def run(ctx, params):
     for name, provs in feats.items():
         for p in provs:
             methods[p].append(name)
+            if expr and name == "ok1":
+                methods[p].append("ok2")
+    if expr:
+        methods["listener2"].append("ok2")
     am["methods"] = methods
     late_async = params["late_kind"] == "async-late"
     am["async"] = [["listener1", n] for n in methods["listener1"]] if late_async else []
-    if quick:
+    if expr:
+        attach_at, attach_mode = [(0, "once"), (1, "once")][ctx.choose(2, "attach")]
+    elif quick:
         attach_at, attach_mode = [(0, "once"), (1, "once"), (1, "twice-in-one-call"), (1, "again-later"), (2, "once")][ctx.choose(5, "attach")]
     else:
         attach_at = ctx.choose(3, "attach_at")
@@ -242,6 +263,30 @@ def run(ctx, params):
             raise Mismatch(f"coroutine-never-awaited:{shape}", f"{lost}")
         cur = new
     ctx.cover("second-instance-silent")
+    if params["kind"] == "attr":
+        # a shallow copy that gets a listener of its own must not leak it into later copies of the original
+        import copy as _copy
+
+        with ctx.notracing():
+            lx = r["listener_classes"][2]()
+            if with_flag:
+                lx.flag = None
+        shallow = _copy.copy(sm)
+        shallow.add_listener(lx)
+        clone = _copy.deepcopy(sm)
+        del script.log[:]
+        script.sm = clone
+        if with_flag:
+            for p_ in flag_provs:
+                pass
+        try:
+            clone.send("go")
+        except clone.TransitionNotAllowed:
+            pass
+        leaked = [rec for rec in script.log if rec[0] == "cb" and rec[2] == "listener2"]
+        if leaked:
+            raise Mismatch("listener-of-a-shallow-copy-leaked-into-a-later-copy", f"copy.copy(sm).add_listener(L); copy.deepcopy(sm) -> the clone calls L: {[(x[2], x[3]) for x in leaked]}")
+        ctx.cover("shallow-copy-listener-isolated")
     # the second instance is alive and independent: one event on it calls only its own providers
     del script.log[:]
     script.sm = other
